@@ -52,6 +52,11 @@ def build_harness():
                      env={"CARGO_NET_OFFLINE": "true"})
     if rc != 0:
         at = out.find("error"); raise ToolError("harness build failed (does /repo still compile with --cfg nexrad_verif?)\n" + out[max(at, 0):max(at, 0) + 3000])
+    lay = os.path.join(HARNESS, "layouts.json")
+    src = os.path.join(SPEC, "Icd.tla")
+    if not os.path.exists(lay) or os.path.getmtime(lay) < os.path.getmtime(src):
+        r = tlc("Gen_Icd", "Gen_Icd", env={"OUT": lay}, coverage=False, workers=1, timeout=300)
+        require_model_ok(r, "Gen_Icd")
     _built = True
     return VDRIVE
 
@@ -376,6 +381,8 @@ class Check:
         seen = {}
         for m in mism:
             sig, idx = m[1], m[2]
+            if sig.startswith("TOOL/"):
+                raise ToolError("trace spec %s: %s at event %s (specification and driver disagree)" % (module, sig, idx))
             detail = m[3:] if len(m) > 3 else []
             if sig in seen:
                 seen[sig]["count"] += 1
@@ -509,3 +516,32 @@ def run_replay(mod, pid, path):
     if not bad:
         log("not reproduced on the current tree")
     return 1 if bad else 0
+
+
+def binding_selftest(c, module, trace, corrupt, cfg=None, batch=True, label=None, **kw):
+    """DESIGN 4.4: corrupt one recorded field and require the trace validation to reject it.
+    `corrupt(event_dict) -> bool` mutates an event in place and returns True once it did."""
+    lines = open(trace).read().splitlines()
+    out, done = [], False
+    for ln in lines:
+        if not done:
+            e = json.loads(ln)
+            if corrupt(e):
+                done = True
+                ln = json.dumps(e)
+        out.append(ln)
+    if not done:
+        raise ToolError("binding self-test: nothing to corrupt in " + trace)
+    p = c.path("corrupted-%s.ndjson" % (label or module))
+    open(p, "w").write("\n".join(out) + "\n")
+    kw.setdefault("workers", 1)
+    kw.setdefault("coverage", False)
+    kw.setdefault("xss", "1g")
+    if not batch:
+        kw.setdefault("deque", True)
+    r = tlc(module, cfg, run_dir=c.run_dir, env={"TRACE": p}, **kw)
+    mism = r.tuples("MISMATCH")
+    if not mism:
+        raise ToolError("binding self-test FAILED: %s accepted a corrupted recording" % module)
+    c.extra.setdefault("binding_selftest", []).append({"trace_spec": module, "label": label, "rejected_with": mism[0][1]})
+    log("  [B] binding self-test %s/%s: corrupted recording rejected (%s)" % (module, label, mism[0][1]))
